@@ -24,6 +24,10 @@ MC_IntLits  == {7, 42}
 MC_IntLits_T == {0, 7, 2147483647}
 MC_StrLits  == {"p", "q r"}
 MC_StrLits_T == {"p", "q r", "", "SELECT * from"}
+MC_TrickyStrs   == {"true", "False", "desc", "and", "left", "null", "=", ",", "(", ";", "*", ".", "!=", "7", "", "a --b", "/* x"}
+MC_TrickyStrs_S == {"true", "="}
+MC_QuotedIdents   == {"select", "Desc", "true", "a b"}
+MC_QuotedIdents_S == {"select"}
 MC_VarcharLens == {1, 255}
 MC_LimVals  == {0, 7}
 MC_LimVals_S == {7}
@@ -102,7 +106,7 @@ MC_Vocab2     == {KW(w) : w \in {"AND", "OR", "SELECT", "FROM", "WHERE", "LIMIT"
                  \cup {Raw(x) : x \in {"99999999999999999999", "0x10", "'", "'abc", "`", "1.5", "/*", "--"}}
                  \cup {Lex(c) : c \in {"dquote", "nul", "bad_utf8"}}
 \* the vocabulary of "all token sequences": every token kind plus the lexical classes C09 names
-MC_SeqVocab   == CoreVocab
+MC_SeqVocab   == CoreVocab \cup QuotedLookalikes
                  \cup {Raw(x) : x \in {"99999999999999999999", "0x10", "1_0", "017", "1.5", "1e9", "'", "'abc", "`abc`", "`",
                                        "--", "/*", "//", "-"}}
                  \cup {Lex(c) : c \in {"dquote", "dq_unterminated", "nul", "bad_utf8", "nonascii_ident", "long_ident"}}
